@@ -503,6 +503,15 @@ def r13_2(ctx: Ctx):
             init_state = {k.value: not (isinstance(v, ast.Constant) and v.value is None)
                           for k, v in zip(val.keys, val.values)}
     if rec is None:
+        # a record taken from a class-level dict is shared by every reader/writer of the process
+        for st in walk_no_nested(init.node):
+            if isinstance(st, ast.Assign) and isinstance(st.value, ast.Attribute) and isinstance(st.value.value, ast.Name) \
+                    and st.value.value.id in ("self", "cls", cls.name) and st.value.attr in cls.consts \
+                    and isinstance(cls.consts[st.value.attr], (ast.Dict, ast.List, ast.Set)):
+                ctx.ob("R13.2", init, st, False, "the format record is per-file state and must be a fresh dict for every GroFile -- "
+                       "`%s` is a class-level mutable shared by all instances (one writer's format leaks into the next)" % norm(st.value),
+                       node=st)
+                return
         raise AnalysisError("R13.2: format record (dict with keys position/velocities) not found in GroFile.__init__")
     # states reachable through the public API before the first write: every function of the class other
     # than the set-up itself that stores a key
@@ -601,14 +610,22 @@ class Undecided(Exception):
 
 
 def _consts(e: ast.AST) -> List[int]:
-    return [n.value for n in ast.walk(e) if isinstance(n, ast.Constant) and isinstance(n.value, int)
-            and not isinstance(n.value, bool)]
+    out = [n.value for n in ast.walk(e) if isinstance(n, ast.Constant) and isinstance(n.value, int)
+           and not isinstance(n.value, bool)]
+    out += [CLASS_CONSTS[n.attr] for n in ast.walk(e) if isinstance(n, ast.Attribute) and n.attr in CLASS_CONSTS]
+    return out
+
+
+CLASS_CONSTS: Dict[str, int] = {}
 
 
 def _aff_eval(e: ast.AST, is_x, lo: int, hi: int):
     """Affine form (a, b) meaning a*x+b valid for all integers x in [lo, hi]; or ('bool', v)."""
     if is_x(e):
         return (1, 0)
+    if isinstance(e, ast.Attribute) and isinstance(e.value, ast.Name) and e.value.id in ("cls", "self", "GroFile") \
+            and e.attr in CLASS_CONSTS:
+        return (0, CLASS_CONSTS[e.attr])
     if isinstance(e, ast.Constant) and isinstance(e.value, bool):
         return ("bool", e.value)
     if isinstance(e, ast.Constant) and isinstance(e.value, int):
@@ -704,6 +721,12 @@ def _pieces(e: ast.AST) -> List[Tuple[int, int]]:
 
 def r13_3(ctx: Ctx):
     f = ctx.func("GroFile.parse_atomlist")
+    CLASS_CONSTS.clear()
+    if f.cls is not None:
+        for k, v in f.cls.consts.items():
+            c = const_int(v)
+            if c is not None:
+                CLASS_CONSTS[k] = c
     wl = writer_layout(ctx, f)
     if wl is None or wl[0] is None:
         ctx.ob("R13.3", f, "integer slots", True, "writer layout not recognised", undecided=True)
